@@ -37,6 +37,8 @@ def gates(c, tier):
     out = [f"generator never produced class {f}" for f in GATE_FEATURES if c.get("feat:" + f, 0) == 0]
     if c.get("failed-pack-before-case", 0) == 0:
         out.append("no failing pack interleaved")
+    if c.get("options:non-default-encoding", 0) == 0:
+        out.append("no message under a non-default string_encoding")
     return out
 
 
@@ -53,14 +55,29 @@ def _path_bucket(p: str) -> str:
 _SHARED_OPTS = None
 
 
-def check_one(m_abs, trailer: bytes, shared_options: bool = False):
+ENCODINGS = ["utf-16-le", "utf-16-be", "utf-32-be", "utf-16", "utf-8"]
+
+
+def mk_options(enc=None):
+    """PackingOptions with the four string_encoding settings given as (message, authentication, control, filter)."""
+    if not enc:
+        return sl._messages.PackingOptions()
+    e_m, e_a, e_c, e_f = enc
+    return sl._messages.PackingOptions(string_encoding=e_m, authentication=sl.AuthenticationOptions(string_encoding=e_a),
+                                       control=sl.ControlOptions(string_encoding=e_c), filter=sl.FilterOptions(string_encoding=e_f))
+
+
+def check_one(m_abs, trailer: bytes, shared_options: bool = False, enc=None):
     """Returns list of (key, what). shared_options: use one long-lived PackingOptions for every message (as a
-    session does) instead of fresh ones - exposes state memoised across calls or objects."""
+    session does) instead of fresh ones - exposes state memoised across calls or objects. enc: non-default text
+    encodings in the options (the same settings are used for encoding and decoding)."""
     global _SHARED_OPTS
     out = []
     op = m_abs[0]
     m = av.build(m_abs)
-    if shared_options:
+    if enc:
+        opts = mk_options(enc)
+    elif shared_options:
         if _SHARED_OPTS is None:
             _SHARED_OPTS = sl._messages.PackingOptions()
         opts = _SHARED_OPTS
@@ -88,7 +105,7 @@ def check_one(m_abs, trailer: bytes, shared_options: bool = False):
         out.append((f"pack-second-object-exc:{op}:{norm_msg(e)}", f"{type(e).__name__}: {e}"))
     reader = sl.asn1.ASN1Reader(bytes(data) + trailer)
     try:
-        m2 = sl._messages.unpack_ldap_message(reader, opts if shared_options else sl._messages.PackingOptions())
+        m2 = sl._messages.unpack_ldap_message(reader, opts if (shared_options and not enc) else mk_options(enc))
     except Exception as e:
         return out + [(f"unpack-exc:{op}:{norm_msg(e)}", f"decoding the library's own encoding raised {type(e).__name__}: {e}")]
     rem = reader.get_remaining_data()
@@ -106,7 +123,7 @@ def check_one(m_abs, trailer: bytes, shared_options: bool = False):
     except Exception as e:
         out.append((f"abstract-exc:{op}", f"{type(e).__name__}: {e}"))
     try:
-        data2 = m2.pack(sl._messages.PackingOptions())
+        data2 = m2.pack(mk_options(enc))
         if data2 != data:
             out.append(("repack:" + op, "re-encoding the decoded message gives different bytes"))
     except Exception as e:
@@ -182,9 +199,18 @@ def run_shard(ctx: Ctx, acc: Acc):
         acc.count("options:shared" if shared else "options:fresh")
         for key, what in check_one(m_abs, trailer, shared):
             acc.violation(key, what, {"message": m_abs, "trailer": trailer, "index": [ctx.seed, ctx.shard, i], "shared_options": shared})
+        if i % 4 == 1:  # the same message under non-default text encodings (PackingOptions.string_encoding and its three sub-options)
+            e = r.choice(ENCODINGS[:4])
+            enc = [e, e, e, e]
+            if r.random() < 0.4:
+                enc[r.randrange(4)] = r.choice(ENCODINGS)
+            acc.case()
+            acc.count("options:non-default-encoding")
+            for key, what in check_one(m_abs, trailer, False, tuple(enc)):
+                acc.violation(key + ":non-default-encoding", what, {"message": m_abs, "trailer": trailer, "enc": enc})
 
 
 def replay(w):
     if w.get("before"):
         check_one(to_tuple(w["before"]), b"")
-    return check_one(to_tuple(w["message"]), bytes(w["trailer"]), bool(w.get("shared_options")))
+    return check_one(to_tuple(w["message"]), bytes(w["trailer"]), bool(w.get("shared_options")), tuple(w["enc"]) if w.get("enc") else None)
